@@ -97,7 +97,14 @@ func replayPDU(arg string) string {
 		_ = json.Unmarshal(rp["hex"], &hx)
 		_ = json.Unmarshal(rp["sched"], &sched)
 		data, _ := hex.DecodeString(hx)
-		for i, o := range readAll(data, sched, 64) {
+		var eofWithData bool
+		var zeroEvery int
+		if rp["eof_with_data"] != nil {
+			_ = json.Unmarshal(rp["eof_with_data"], &eofWithData)
+			_ = json.Unmarshal(rp["zero_every"], &zeroEvery)
+			out = append(out, fmt.Sprintf("transport: last octets returned together with io.EOF=%v, a 0-octet read every %d reads", eofWithData, zeroEvery))
+		}
+		for i, o := range readAllAttr(data, sched, 64, eofWithData, zeroEvery) {
 			line := fmt.Sprintf("call %d: %s consumed=%d err=%v %s", i, o.Kind, o.Consumed, o.Err, o.Msg)
 			if o.PDU != nil {
 				line += " value=" + coqValue(o.PDU)
